@@ -327,6 +327,55 @@ class LowerP:
         return self.block(ast, env, lambda e1, v: self.ret(e1, v))
 
 
+PTR_FNS = ["new_from", "new_owned", "new_write_address_ptr", "new_unchecked", "read", "write", "copy", "store_as_kanal_ptr"]
+PTR_COND = {"size_of::<>()==0": "(n == 0)", "size_of::<>()>size_of::<>()": "(decide (n > P))", "size_of::<>()>0": "(decide (n > 0))"}
+PTR_OPS = {
+    "zeroed()": ".zeroed",
+    "ptr::read(*self.0.get().assume_init())": ".readThrough",
+    "ptr::read(*self.0.get().as_ptr() as _)": ".readInline",
+    "ptr::write(*self.0.get().assume_init(),d)": ".writeThrough",
+    "*self.0.get()=store_as_kanal_ptr(d)": ".storeInline",
+    "forget(d)": ".forget",
+    "ptr::copy_nonoverlapping(d,*self.0.get().assume_init(),1)": ".copyThrough",
+    "Self(UnsafeCell::new(MaybeUninit::new(addr)))": ".wordAddr",
+    "Self(UnsafeCell::new(store_as_kanal_ptr(addr)))": ".wordInline",
+    "Self(UnsafeCell::new(store_as_kanal_ptr(d)))": ".wordInline",
+    "Self(UnsafeCell::new(MaybeUninit::uninit()))": ".wordUninit",
+    "MaybeUninit::uninit()": ".wordUninit",
+    "ptr::copy_nonoverlapping(ptr,ret.as_mut_ptr() as _,1)": ".copyBytes",
+    "ret": None,                                            # the value built above is returned
+}
+
+
+def lower_ptr(fn, unknown):
+    """a function of pointer.rs as the list of pointer operations it performs, by size class (`n` = size_of::<T>(), `P` = pointer size)"""
+    ast = P(fn["toks"]).block()
+    def ops_expr(e):
+        if e is None: return "[]"
+        if e[0] == "paren": return ops_expr(e[1])
+        if e[0] == "block": return ops_block(e)
+        if e[0] == "macro" and e[1] in ("unreachable", "panic"): return "[.unreachable]"
+        if e[0] == "if":
+            c = show(e[1])
+            if c not in PTR_COND:
+                unknown.append("size test " + c); cond = "false"
+            else: cond = PTR_COND[c]
+            return f"(if {cond} then {ops_expr(e[2])} else {ops_expr(e[3])})"
+        t = show(e)
+        if t in PTR_OPS: return "[]" if PTR_OPS[t] is None else f"[{PTR_OPS[t]}]"
+        unknown.append(t); q = t.replace('"', "'")
+        return f'[.unknown "{q}"]'
+    def ops_block(b):
+        parts = []
+        for st in b[1]:
+            if st[0] == "let": parts.append(ops_expr(st[2]))
+            else: parts.append(ops_expr(st[1]))
+        if b[2] is not None: parts.append(ops_expr(b[2]))
+        parts = [p for p in parts if p != "[]"]
+        return "(" + " ++ ".join(parts) + ")" if parts else "[]"
+    return ops_block(ast)
+
+
 def patch_parser():
     """the protocol code uses closures `|| e`, ranges `a..b`, shifts and `const` items inside bodies"""
     import rs2lean
@@ -414,10 +463,32 @@ def main():
             out += pretty(body).split("\n"); out.append("")
             ranges[nm] = (start, len(out))
             for u in L.unknown: problems.append(f"{nm}: unknown expression `{u}`")
+        # pointer.rs: which pointer operations each function performs, by size class
+        psrc = strip_verif(strip_comments(open(os.path.join(src_dir, "pointer.rs")).read()))
+        ptr_problems, ptr_names = [], []
+        pfns = {f["name"]: f for f in find_functions(psrc, "pointer.rs") if f["name"] in PTR_FNS}
+        for nm in PTR_FNS:
+            unk = []
+            try:
+                if nm not in pfns: raise Unsupported("function not found")
+                body = lower_ptr(pfns[nm], unk)
+            except (Unsupported, SyntaxError, IndexError, KeyError, TypeError) as ex:
+                ptr_problems.append(f"KanalPtr_{nm}: {type(ex).__name__}: {ex}"); body = '[.unknown "untranslatable"]'
+            full = "KanalPtr_" + nm
+            if full in stubbed: ptr_problems.append(f"{full}: does not type-check ({stubbed[full]})"); body = '[.unknown "untranslatable"]'
+            for u in unk: ptr_problems.append(f"{full}: unknown expression `{u}`")
+            ptr_names.append(full); start = len(out) + 1
+            out.append(f"/-- `KanalPtr::{nm}` (pointer.rs): the pointer operations performed, `n` = size_of::<T>(), `P` = size of a pointer -/")
+            out.append(f"def {full} (n P : Nat) : List PtrOp :=")
+            out.append("  " + body); out.append("")
+            ranges[full] = (start, len(out))
         out.append("def protoNames : List String := [" + ", ".join(f'"{n}"' for n in names) + "]")
+        out.append("def ptrNames : List String := [" + ", ".join(f'"{n}"' for n in ptr_names) + "]")
+        out.append("def ptrProblems : List String := [" + ", ".join('"' + q.replace('\\', '/').replace('"', "'") + '"' for q in ptr_problems) + "]")
         out.append("")
         out.append("def protoProblems : List String := [" + ", ".join('"' + p.replace('"', "'").replace("\\", "/") + '"' for p in problems) + "]")
         out += ["", "end Gen", "end Kanal", ""]
+        render.ptr = (ptr_names, ptr_problems)
         return "\n".join(out), names, problems, ranges
     text, names, problems, ranges = render({})
     old = open(out_path).read() if os.path.exists(out_path) else None
@@ -433,6 +504,8 @@ def main():
             open(out_path, "w").write(text)
     print(f"rs2proto: {len(names)} functions, {len(problems)} problems -> {out_path}")
     for p in problems: print("  problem:", p)
+    print(f"rs2proto: pointer.rs {len(render.ptr[0])} functions, {len(render.ptr[1])} problems")
+    for p in render.ptr[1]: print("  problem:", p)
 
 
 if __name__ == "__main__":
